@@ -205,6 +205,42 @@ def check_sources(ctx, F):
     ctx.rule("det.clock", n, floor=30000, note=f"resolved call sites scanned for clock/random/pid sources and thread spawns (expected 0; positive example matched); env::var read in {sorted(e.split('::')[-1] for e in envs)}")
 
 
+ENV_OK = {
+    # (function, variable): why reading it cannot change an artefact of this property
+    ("crate::parser::stats::print_message_stats", "WOWM_ONLY_PRINT_NAME_OF_SINGLE_MESSAGE"): "selects what the statistics print on the console",
+    ("crate::error_printer::wowm_exit", "WOWM_PRINT_TEST_ERRORS"): "prints the diagnostic of an expected failure while the tests run",
+    ("crate::wireshark_printer::print_wireshark", "WOWM_WIRESHARK"): "names an additional directory the Wireshark fragments are copied to",
+    ("crate::base_printer::print_base", "WOWM_SQLITE_DB_PATH"): "locates the item / spell database (data crates outside the artefact list of this property)",
+}
+
+
+def check_env(ctx, F):
+    """det.env: the process environment is not an input of the artefacts: every read of an environment variable in the generator stands in
+    one of the tabled functions whose use of it cannot reach a generated file (a variable baked into generated text makes the same wowm give
+    different artefacts in two shells)"""
+    n = 0
+    for fn in F.all("fn"):
+        if fn.get("hir") is None or fn["path"].startswith(OUT_OF_SCOPE) and False:
+            continue
+        for x in H.walk(fn["hir"]):
+            p = H.call_path(x) if H.tag(x) == "call" else None
+            if p not in ("std::env::var", "std::env::var_os", "std::env::vars", "std::env::vars_os", "std::env::args", "std::env::args_os", "std::env::current_dir", "std::env::temp_dir", "std::env::home_dir"):
+                continue
+            n += 1
+            a = H.call_args(x)
+            var = None
+            if a:
+                a0 = H.strip_refs(a[0]) if hasattr(H, "strip_refs") else H.strip(a[0])
+                if H.tag(a0) == "lit" and a0[1] == "str":
+                    var = a0[2]
+            owner = fn["path"].split("::{closure")[0]
+            if (owner, var) in ENV_OK:
+                continue
+            ctx.violate("det.env", f"{owner}|{p.split('::')[-1]}|{var}", f"{owner} reads {p}({var!r}): the generator's environment becomes an input of what it prints "
+                        f"(the same wowm gives different artefacts in two shells); only {sorted(v for _o, v in ENV_OK)} may be read, each in its tabled function", fn["file"], fn["line"])
+    ctx.rule("det.env", n, floor=4, note="reads of the process environment in the generator, each confined to a tabled function whose use of it cannot reach a generated file")
+
+
 def check_write_funnel(ctx, F):
     n = 0
     for owner, callee, generic, ga, span in calls_of(F):
@@ -843,6 +879,7 @@ def run(ctx):
     check_hash_iteration(ctx, F)
     check_walks(ctx, F)
     check_sources(ctx, F)
+    check_env(ctx, F)
     check_write_funnel(ctx, F)
     check_clean_cover(ctx, F)
     check_sweep_witness(ctx, F)
